@@ -28,6 +28,7 @@ import (
 	"context"
 	stdjson "encoding/json"
 	"fmt"
+	"os"
 	"sort"
 	"strconv"
 	"strings"
@@ -53,8 +54,15 @@ const (
 	c01hListener = "c01Listener"
 	c01hRouter   = "c01Router"
 	c01hCluster  = "c01http"
-	c01hTimeout  = 20 * time.Second
 )
+
+// generous; only ever produces a HARNESS error
+var c01hTimeout = func() time.Duration {
+	if ms, err := strconv.Atoi(os.Getenv("VERIF_C01H_TIMEOUT_MS")); err == nil && ms > 0 {
+		return time.Duration(ms) * time.Millisecond
+	}
+	return 20 * time.Second
+}()
 
 // ---------------------------------------------------------------------------
 // HTTP/1 text: builder and the harness' own parser (independent of fasthttp)
@@ -115,6 +123,8 @@ func c01hFrame(dst []byte, framing string, body []byte) []byte {
 	}
 	panic("c01h: bad framing " + framing)
 }
+
+var errC01hCloseDelimited = fmt.Errorf("response without content-length or chunked framing (close-delimited)")
 
 type c01hMsg struct {
 	Line   string // start line without CRLF
@@ -219,7 +229,10 @@ func c01hParse(b []byte, isResp bool, reqMethod string) (m c01hMsg, complete boo
 		pos += cl
 	default:
 		if isResp {
-			return m, false, fmt.Errorf("response without content-length or chunked framing (close-delimited)")
+			// close-delimited: the caller decides (complete once the connection is closed)
+			m.Body = append(m.Body, rest...)
+			m.Raw = len(b)
+			return m, false, errC01hCloseDelimited
 		}
 	}
 	m.Raw = pos
@@ -273,8 +286,16 @@ func c01hInit() {
 		vfake.Install()
 		log.DefaultLogger.SetLogLevel(log.FATAL)
 		log.Proxy.SetLogLevel(log.FATAL)
+		if os.Getenv("VERIF_DEBUG") == "3" {
+			log.DefaultLogger.SetLogLevel(log.DEBUG)
+			log.Proxy.SetLogLevel(log.DEBUG)
+		}
 		initGlobalStats()
 		pool = mosnsync.NewWorkerPool(64)
+		// what pkg/filter/network/proxy (the filter factory, which cannot be imported from
+		// here: import cycle) does in its init: without it Set(VarProtocolConfig) is a no-op
+		// and the proxy would auto-detect the protocol instead of using the configured one
+		_ = variable.Register(variable.NewVariable(types.VarProtocolConfig, nil, nil, variable.DefaultSetter, 0))
 		cc := v2.Cluster{Name: c01hCluster, ClusterType: v2.SIMPLE_CLUSTER, LbType: v2.LB_ROUNDROBIN}
 		hosts := []v2.Host{{HostConfig: v2.HostConfig{Address: "127.0.0.1:21080", Weight: 1}}}
 		cluster.NewClusterManagerSingleton([]v2.Cluster{cc}, map[string][]v2.Host{c01hCluster: hosts}, nil)
@@ -309,6 +330,9 @@ type c01hRec struct {
 	ups  int
 	done bool
 }
+
+// OnEvent: connection events wake the waiting harness goroutine as well
+func (r *c01hRec) OnEvent(event api.ConnectionEvent) { r.notify() }
 
 func (r *c01hRec) notify() {
 	select {
@@ -360,8 +384,15 @@ func c01hInject(c *vfake.Conn, b []byte, what string) error {
 	}
 }
 
-// c01hRun performs one exchange on fresh connections.
-func c01hRun(c *c01hCase) (obs c01hObs, harness string) {
+// c01hSession is one downstream connection with its proxy (and whatever
+// upstream connections the pool creates for it).
+type c01hSession struct {
+	rec  *c01hRec
+	down *vfake.Conn
+	p    *proxy
+}
+
+func c01hNewSession() (*c01hSession, string) {
 	c01hInit()
 	rec := &c01hRec{sig: make(chan struct{}, 1)}
 	vfake.Reset()
@@ -393,17 +424,61 @@ func c01hRun(c *c01hCase) (obs c01hObs, harness string) {
 	p := NewProxy(ctx, &v2.Proxy{DownstreamProtocol: string(protocol.HTTP1), UpstreamProtocol: string(protocol.HTTP1), RouterConfigName: c01hRouter}).(*proxy)
 	down.FilterManager().AddReadFilter(p)
 	down.FilterManager().InitializeReadFilters()
+	down.AddConnectionEventListener(rec)
+	if p.serverStreamConn == nil {
+		return nil, "the proxy did not create the HTTP/1 server stream connection from its configured protocol"
+	}
+	return &c01hSession{rec: rec, down: down, p: p}, ""
+}
 
-	defer func() {
-		// end of the exchange: both peers go away, the serve goroutines end
-		rec.mu.Lock()
-		up := rec.up
-		rec.mu.Unlock()
-		down.RemoteClose()
-		if up != nil {
-			up.RemoteClose()
+// close: both peers go away, the serve goroutines end.
+func (s *c01hSession) close() {
+	s.rec.mu.Lock()
+	up := s.rec.up
+	s.rec.mu.Unlock()
+	s.down.RemoteClose()
+	if up != nil {
+		up.RemoteClose()
+	}
+}
+
+// c01hRun performs one exchange on fresh connections.
+func c01hRun(c *c01hCase) (obs c01hObs, harness string) {
+	s, h := c01hNewSession()
+	if h != "" {
+		return obs, h
+	}
+	defer s.close()
+	return s.exchange(c)
+}
+
+// c01hRunSeq performs the exchanges one after the other on the same downstream
+// connection (keep-alive; the pool is free to reuse the upstream connection).
+func c01hRunSeq(cs []c01hCase) (obs []c01hObs, harness string) {
+	s, h := c01hNewSession()
+	if h != "" {
+		return nil, h
+	}
+	defer s.close()
+	for i := range cs {
+		if s.down.IsClosed() {
+			return obs, fmt.Sprintf("the downstream connection was closed before exchange %d", i)
 		}
-	}()
+		o, h := s.exchange(&cs[i])
+		if h != "" {
+			return obs, fmt.Sprintf("exchange %d: %s", i, h)
+		}
+		obs = append(obs, o)
+	}
+	return obs, ""
+}
+
+// exchange sends one request and, once it has arrived upstream, the response.
+func (s *c01hSession) exchange(c *c01hCase) (obs c01hObs, harness string) {
+	rec, down, p := s.rec, s.down, s.p
+	rec.mu.Lock()
+	rec.upB, rec.dnB = nil, nil
+	rec.mu.Unlock()
 
 	if err := c01hInject(down, c.requestBytes(), "the request"); err != nil {
 		return obs, err.Error()
@@ -422,6 +497,9 @@ func c01hRun(c *c01hCase) (obs c01hObs, harness string) {
 	}
 	respDone := func() bool {
 		m, ok, err := c01hParse(rec.dnB, true, c.Method)
+		if err == errC01hCloseDelimited {
+			ok, err = down.IsClosed(), nil
+		}
 		if err != nil {
 			perr = fmt.Errorf("downstream response does not parse: %v", err)
 			return true
@@ -431,8 +509,20 @@ func c01hRun(c *c01hCase) (obs c01hObs, harness string) {
 		}
 		return ok
 	}
-	if err := rec.wait("the request on the upstream connection, or a local reply", func() bool { return reqDone() || respDone() }); err != nil {
+	if err := rec.wait("the request on the upstream connection, a local reply, or the connection being closed", func() bool { return reqDone() || respDone() || down.IsClosed() }); err != nil {
 		return obs, err.Error()
+	}
+	if perr == nil && !obs.gotUp && down.IsClosed() {
+		rec.mu.Lock()
+		done := respDone()
+		obs.upRaw, obs.dnRaw = append([]byte{}, rec.upB...), append([]byte{}, rec.dnB...)
+		rec.mu.Unlock()
+		if !done {
+			// closed without a (framed) reply
+			obs.local, obs.downClose = true, true
+			obs.dnResp.Line = "(connection closed) " + string(obs.dnRaw)
+			return obs, ""
+		}
 	}
 	if perr != nil {
 		rec.mu.Lock()
@@ -579,6 +669,10 @@ func c01hBodyDiff(sent, got []byte) string {
 func c01hJudge(c *c01hCase, obs *c01hObs) []c01hFinding {
 	var out []c01hFinding
 	if obs.local {
+		if strings.HasPrefix(obs.dnResp.Line, "(connection closed)") {
+			return append(out, c01hFinding{"http1 dir=request not-forwarded connection-closed-without-reply",
+				fmt.Sprintf("the well-formed request %q was not forwarded; the downstream connection was closed, bytes written: %s", c.Method+" "+c.Target, c01hShort(obs.dnRaw))})
+		}
 		out = append(out, c01hFinding{"http1 dir=request not-forwarded local-reply status=" + strings.SplitN(obs.dnResp.Line+"  ", " ", 3)[1],
 			fmt.Sprintf("the well-formed request %q was answered by the proxy itself with %q, nothing reached the upstream", c.Method+" "+c.Target, obs.dnResp.Line)})
 		return out
@@ -620,7 +714,9 @@ func c01hJudge(c *c01hCase, obs *c01hObs) []c01hFinding {
 		out = append(out, c01hFinding{"http1 dir=response status-code-changed", fmt.Sprintf("upstream answered %d, downstream got status line %q", c.Status, obs.dnResp.Line)})
 	}
 	// reason phrase and version: not part of the statement, enumerated only
-	out = append(out, c01hCompareFields("response", c.RespFields, obs.dnResp.Fields, c01hIgnoredResp, nil)...)
+	// a Date field added to a response that has none is what RFC 7231 7.1.1.2 asks of a
+	// forwarding recipient: enumerated, not compared (a Date that was sent is compared)
+	out = append(out, c01hCompareFields("response", c.RespFields, obs.dnResp.Fields, c01hIgnoredResp, map[string]bool{"date": true})...)
 	wantBody := c01hBody(c.RespBody)
 	if c.Method == "HEAD" || c.Status == 204 || c.Status == 304 {
 		wantBody = nil
@@ -659,13 +755,26 @@ func c01hPaths(maxSeg int) []string {
 	return out
 }
 
+// further request-targets outside the segment alphabet: lower-case hex digits,
+// sub-delims, matrix parameters, repeated / bracketed / encoded query keys,
+// '?' and '/' and '..' inside the query, runs of slashes, dot segments at the
+// edges, an encoded NUL, a long path
+var c01hExtraTargets = []string{
+	"/%2f", "/%c3%a4", "/%C3%a4/%2F%2f", "/a;p=1", "/a;p=1/b;q", "/a:b@c", "/~a", "/a!$&'()*+,;=", "/a%00b", "/a%25", "/a%252F",
+	"/a?%2F=%2f", "/a?a=1&a=2", "/a?a[]=1", "/a?q=a+b", "/a?q=%26%3D", "/a?/../b", "/a/?/b", "/a?&", "/a?&&a", "/a?a", "/a?a=", "/a?=b", "/a?a==b", "/a?;",
+	"//", "///a", "/a//", "/a///b", "/./a", "/a/./b", "/a/../..", "/..", "/../..", "/.", "/a/.", "/a/..", "/...", "/.a", "/a.", "/a..b",
+	"/" + strings.Repeat("long/", 400) + "x?" + strings.Repeat("k=v&", 200),
+}
+
 var c01hReqAlphabet = []c01hField{
 	{"X-A", "1"}, {"X-A", "2"}, {"x-b", ""}, {"X-C", "a, b;q=0.5 =?%41\t\"q\""},
 	{"Content-Type", "application/x-c01"}, {"User-Agent", "c01-agent/1.0"}, {"Cookie", "k=v; k2=v2"}, {"Accept-Encoding", "gzip"},
+	{"X-U", "caf\u00e9 \u4e2d"}, {"Connection", "close"},
 }
 var c01hRespAlphabet = []c01hField{
 	{"X-R", "1"}, {"X-R", "2"}, {"x-e", ""}, {"X-L", "a, b;q=0.5 =?%41"},
 	{"Content-Type", "application/x-c01"}, {"Server", "c01-origin"}, {"Set-Cookie", "a=1; Path=/"}, {"Set-Cookie", "b=2"},
+	{"Date", "Mon, 01 Jan 2001 00:00:00 GMT"}, {"Connection", "close"},
 }
 
 // c01hSubsets: all subsequences of alphabet with at most max elements, in alphabet order.
@@ -737,7 +846,7 @@ func c01hFieldsKey(fs []c01hField) string {
 // Part 1: every request-target x {GET, POST+body}.
 func TestVerifC01HTTP1Targets(t *testing.T) {
 	p := vreport.Begin("C01", "http1-request-targets", time.Duration(vreport.Pick(3, 15))*time.Minute)
-	maxSeg := vreport.Pick(2, 3)
+	maxSeg := vreport.Pick(3, 4)
 	gen := func(yield func(c01hCase) bool) {
 		emit := func(method, target string) bool {
 			c := c01hBase("targets")
@@ -757,6 +866,13 @@ func TestVerifC01HTTP1Targets(t *testing.T) {
 				}
 			}
 		}
+		for _, tg := range c01hExtraTargets {
+			for _, m := range []string{"GET", "POST"} {
+				if !emit(m, tg) {
+					return
+				}
+			}
+		}
 		// asterisk-form
 		for _, m := range []string{"OPTIONS", "GET"} {
 			c := c01hBase("targets")
@@ -771,7 +887,7 @@ func TestVerifC01HTTP1Targets(t *testing.T) {
 		c01hCheck(p, c)
 	})
 	p.End(complete,
-		fmt.Sprintf("request-targets = ('/' | paths of 1..%d segments over {a,%%2F,%%20,%%41,..,.,\"\",*,a+b,%%C3%%A4}) x queries {absent, ?, ?a=b, ?a=%%20&b, ?=, ?a=b?c} x {GET, POST with a body}, plus asterisk-form '*' with OPTIONS and GET; one full exchange each through the real proxy (HTTP/1 listener side, router prefix '/', HTTP/1 pool, client stream) on fresh connections", maxSeg),
+		fmt.Sprintf("request-targets = (('/' | paths of 1..%d segments over {a,%%2F,%%20,%%41,..,.,\"\",*,a+b,%%C3%%A4}) x queries {absent, ?, ?a=b, ?a=%%20&b, ?=, ?a=b?c} + "+strconv.Itoa(len(c01hExtraTargets))+" further targets (lower-case hex, sub-delims, matrix parameters, query edge forms, slash runs, dot segments, %%00, a 2.8 KB target)) x {GET, POST with a body}, plus asterisk-form '*' with OPTIONS and GET; one full exchange each through the real proxy (HTTP/1 listener side, router prefix '/', HTTP/1 pool, client stream) on fresh connections", maxSeg),
 		"complete product; distinct = request-target; compared: method, request-target byte-for-byte, header multiset (names case-insensitive, values byte-for-byte; Connection / Content-Length / Transfer-Encoding framing not compared; Date added when absent and the Host default not compared; header name case and the HTTP version are enumerated, not compared), body; response: status code, header multiset, body (reason phrase not compared)")
 }
 
@@ -797,6 +913,12 @@ func TestVerifC01HTTP1Headers(t *testing.T) {
 			}
 			return true
 		}
+		// no Host field at all (the Host default is MOSN's by design: not compared)
+		nh := c01hBase("headers")
+		nh.Host = ""
+		if !yield(nh) {
+			return
+		}
 		if full {
 			for _, rs := range reqSets {
 				for _, ps := range respSets {
@@ -807,31 +929,27 @@ func TestVerifC01HTTP1Headers(t *testing.T) {
 			}
 			return
 		}
-		// quick: every request set with two response sets, every response set with two request sets
+		// quick: the full product of the sets of <= 2 fields, and every set of 3 fields
+		// with two sets of the other direction
 		for i, rs := range reqSets {
-			if !emit(rs, respSets[0]) || !emit(rs, respSets[i%len(respSets)]) {
-				return
+			for j, ps := range respSets {
+				if (len(rs) <= 2 && len(ps) <= 2) || j == 0 || i == 0 || j == i%len(respSets) || i == (j+1)%len(reqSets) {
+					if !emit(rs, ps) {
+						return
+					}
+				}
 			}
 		}
-		for j, ps := range respSets {
-			if !emit(reqSets[0], ps) || !emit(reqSets[(j+1)%len(reqSets)], ps) {
-				return
-			}
-		}
-		// no Host field at all (the Host default is MOSN's by design: not compared)
-		c := c01hBase("headers")
-		c.Host = ""
-		yield(c)
 	}
 	complete := vreport.Run(p, gen, func(p *vreport.Part, c c01hCase) {
 		p.Distinct(c.Method + "\n" + c01hFieldsKey(c.ReqFields) + "--\n" + c01hFieldsKey(c.RespFields))
 		c01hCheck(p, c)
 	})
-	bound := "request field sets = all sub-sequences of <= 3 fields of {X-A:1, X-A:2 (repeated name), x-b:<empty>, X-C:<list/quoted/tab value>, Content-Type, User-Agent, Cookie, Accept-Encoding} (93), response field sets likewise over {X-R:1, X-R:2, x-e:<empty>, X-L, Content-Type, Server, Set-Cookie x2} (93), x {GET, POST+body}"
+	bound := fmt.Sprintf("request field sets = all sub-sequences of <= 3 fields of {X-A:1, X-A:2 (repeated name), x-b:<empty>, X-C:<list/quoted/tab value>, Content-Type, User-Agent, Cookie, Accept-Encoding, X-U:<UTF-8>, Connection:close} (%d), response field sets likewise over {X-R:1, X-R:2, x-e:<empty>, X-L, Content-Type, Server, Set-Cookie x2, Date, Connection:close} (%d), x {GET, POST+body}, plus a request without Host", len(reqSets), len(respSets))
 	if full {
 		bound += "; full product of request sets x response sets"
 	} else {
-		bound += "; quick: every request set with 2 response sets and every response set with 2 request sets (the full product is the thorough tier), plus a request without Host"
+		bound += "; quick: full product of the request sets x response sets of <= 2 fields, every 3-field set with 2 sets of the other direction (the full product is the thorough tier)"
 	}
 	p.End(complete, bound,
 		"distinct = (method, request fields, response fields); header multiset compared as in part http1-request-targets; a body-carrying message without Content-Type and a response carrying Date are part of the alphabet (they expose the recorded default Content-Type / Date findings)")
@@ -927,4 +1045,113 @@ func TestVerifC01HTTP1Bodies(t *testing.T) {
 	p.End(complete,
 		fmt.Sprintf("methods {POST,PUT,PATCH,DELETE,OPTIONS,PURGE} x request bodies %v (z<n> = n patterned bytes, all = every byte value) x framings %v; body-less {GET,HEAD,DELETE,OPTIONS,PURGE,POST,PUT}; GET/HEAD carrying a body; response bodies x framings x {200,404,500}; status codes %v x {empty, small body} x {GET,HEAD,POST}", bodies, framings, statuses),
 		"complete products as listed; distinct = (method, request body, request framing, status, response body, response framing); the body is compared after removing the transfer framing on both sides (Content-Length vs chunked is MOSN's choice, not compared)")
+}
+
+// Part 4: consecutive exchanges on one keep-alive connection pair.
+type c01hSeqCase struct {
+	Seq []c01hCase `json:"seq"`
+}
+
+func c01hSeqAlphabet() []c01hCase {
+	mk := func(method, target string, rf []c01hField, rb, rfr string, st int, pf []c01hField, pb, pfr string) c01hCase {
+		return c01hCase{Part: "keepalive", Method: method, Target: target, Host: "c01.example", ReqFields: rf, ReqBody: rb, ReqFraming: rfr,
+			Status: st, Reason: "R", RespFields: pf, RespBody: pb, RespFrame: pfr}
+	}
+	ct := c01hField{"Content-Type", "application/x-c01"}
+	return []c01hCase{
+		mk("GET", "/k0", nil, "", "none", 200, []c01hField{ct}, "lit:r0", "cl"),
+		mk("GET", "/k1/%2F?a=%20&b", []c01hField{{"X-A", "1"}, {"X-A", "2"}, {"Cookie", "k=v; k2=v2"}}, "", "none", 404, []c01hField{ct, {"X-R", "1"}, {"X-R", "2"}, {"Set-Cookie", "a=1; Path=/"}}, "z4096", "cl"),
+		mk("POST", "/k2", []c01hField{ct, {"User-Agent", "c01-agent/1.0"}}, "all", "cl", 201, []c01hField{{"x-e", ""}}, "lit:", "cl"),
+		mk("POST", "/k3?x", []c01hField{{"Content-Type", "text/k3"}}, "z8192", "chunked:7", 200, []c01hField{{"Content-Type", "text/k3r"}}, "z4097", "chunked:4096"),
+		mk("HEAD", "/k4", nil, "", "none", 200, []c01hField{ct, {"Server", "c01-origin"}}, "lit:head", "cl"),
+		mk("PUT", "/k5", []c01hField{ct}, "z1", "cl", 204, nil, "lit:", "cl"),
+		mk("DELETE", "/k6?=", nil, "", "none", 500, []c01hField{ct, {"X-L", "a, b"}}, "lit:oops", "cl"),
+		mk("OPTIONS", "*", nil, "", "none", 200, nil, "lit:", "cl"),
+		mk("GET", "/k8", []c01hField{{"Accept-Encoding", "gzip"}, {"x-b", ""}}, "", "none", 304, []c01hField{{"X-R", "8"}}, "lit:", "cl"),
+		mk("POST", "/k9", []c01hField{ct}, "lit:", "cl", 302, []c01hField{ct, {"X-L", "/elsewhere"}}, "lit:moved", "cl"),
+	}
+}
+
+func TestVerifC01HTTP1KeepAlive(t *testing.T) {
+	p := vreport.Begin("C01", "http1-keepalive-sequences", time.Duration(vreport.Pick(3, 15))*time.Minute)
+	alpha := c01hSeqAlphabet()
+	n := vreport.Pick(3, 4)
+	gen := func(yield func(c01hSeqCase) bool) {
+		idx := make([]int, n)
+		for {
+			sc := c01hSeqCase{}
+			for _, i := range idx {
+				sc.Seq = append(sc.Seq, alpha[i])
+			}
+			if !yield(sc) {
+				return
+			}
+			k := n - 1
+			for k >= 0 {
+				idx[k]++
+				if idx[k] < len(alpha) {
+					break
+				}
+				idx[k] = 0
+				k--
+			}
+			if k < 0 {
+				return
+			}
+		}
+	}
+	// what each exchange yields when it is alone on fresh connections
+	alone := map[string]map[string]bool{}
+	aloneKeys := func(c c01hCase) (map[string]bool, string) {
+		id := c.Method + " " + c.Target
+		if m, ok := alone[id]; ok {
+			return m, ""
+		}
+		obs, h := c01hRun(&c)
+		if h != "" {
+			return nil, h
+		}
+		m := map[string]bool{}
+		for _, f := range c01hJudge(&c, &obs) {
+			m[f.key] = true
+		}
+		alone[id] = m
+		return m, ""
+	}
+	complete := vreport.Run(p, gen, func(p *vreport.Part, sc c01hSeqCase) {
+		var names []string
+		for _, c := range sc.Seq {
+			names = append(names, c.Method+" "+c.Target)
+		}
+		p.Distinct(strings.Join(names, " ; "))
+		obs, h := c01hRunSeq(sc.Seq)
+		if h != "" {
+			vreport.HarnessError("C01", p.Name, strings.Join(names, " ; ")+": "+h)
+			return
+		}
+		out := ""
+		for i := range obs {
+			base, h := aloneKeys(sc.Seq[i])
+			if h != "" {
+				vreport.HarnessError("C01", p.Name, names[i]+" alone: "+h)
+				return
+			}
+			for _, f := range c01hJudge(&sc.Seq[i], &obs[i]) {
+				key := f.key
+				if i > 0 && !base[key] {
+					// not a property of this message: something of the earlier exchange leaked into it
+					key = "http1 keep-alive reuse: exchange differs from the same exchange on fresh connections: " + strings.TrimPrefix(f.key, "http1 ")
+				}
+				p.Violation(key, fmt.Sprintf("sequence [%s], exchange %d: %s", strings.Join(names, " ; "), i+1, f.detail), sc)
+				out += key + ","
+			}
+		}
+		p.Outcome(out + fmt.Sprint(len(obs)))
+		if p.WantSample() {
+			p.Sample(map[string]interface{}{"sequence": names})
+		}
+	})
+	p.End(complete,
+		fmt.Sprintf("all sequences of %d exchanges over an alphabet of %d diverse exchanges (GET/HEAD/POST/PUT/DELETE/OPTIONS, targets with escapes and queries, 0..3 request and 0..4 response fields incl. repeated names / empty values / Cookie / Set-Cookie, bodies none / 0 / 1 / all byte values / 4096 / 4097 / 8192 with Content-Length and chunked, status 200/201/204/302/304/404/500) on ONE keep-alive downstream connection (the HTTP/1 pool may reuse the upstream connection)", n, len(alpha)),
+		"complete product; every exchange of a sequence is judged like a single exchange; a finding of a later exchange that the same exchange does not show on fresh connections is reported under its own keep-alive key (state of an earlier message leaking into a later one)")
 }
